@@ -1285,19 +1285,11 @@ def finding_key(case, res):
     fail = (res or {}).get("fail") or ""
     sig = signature(case)
     kind = case["kind"]
-    miss = sig["miss_all"] or sig["miss_some"]
     cls = None
     if _CRASH in fail:
-        if (kind == "cond" and fail.startswith("ValueError (") and "empty list for the event" in fail
-                and "at _validate_transport_unconditional_counterfactual_query_input:" in fail and sig["miss_all"]):
-            cls = "crash:ctfTR-derived-event-rejected"
-        elif (kind == "cond" and fail.startswith("KeyError (") and "at least one variable in the event" in fail
-              and "at _validate_transport_conditional_counterfactual_query_line_4_output:" in fail and sig["miss_some"]):
-            # check 5 of the output check, with an outcome dropped from a NON-empty D* (miss_all is the empty D*, which
-            # Algorithm 2's validator rejects before line 4; Lean: with OutcomesFound = no miss - Algorithm 3 never
-            # raises, ctfTR_no_internal_error_plain_partial)
-            cls = "crash:ctfTR-final-check"
-        elif (fail.startswith("TypeError (") and "at _any_variables_with_inconsistent_values:" in fail
+        # (the crash classes crash:ctfTR-derived-event-rejected / crash:ctfTR-final-check of Algorithm 3 are FIXED, repo
+        # f335599: an exception of ctfTR after validation is attributed to no class any more - Lean ctfTR_no_internal_error)
+        if (fail.startswith("TypeError (") and "at _any_variables_with_inconsistent_values:" in fail
               and sig["simplify_risk"]):
             cls = "crash:simplify-typeerror"
         elif (fail.startswith("ValueError (") and sig["domain_drops_bi"]
@@ -1316,9 +1308,8 @@ def finding_key(case, res):
             if sig[k] and not sig["inconsistent_factor"]:
                 cls = "value:" + k
                 break
-        if cls is None and kind == "cond" and miss:
-            same = {int(v[1]) for v in case["outcomes"]} & {int(v[1]) for v in case["conditions"]}
-            cls = "value:outcome-also-condition" if same else "value:outcome-lookup-miss"
+        # (value:outcome-lookup-miss / value:outcome-also-condition are FIXED, repo f335599: a wrong value on a query whose
+        # outcome is not in minimal form is attributed to no class of its own any more)
     if cls is not None:
         return f"{kind}:{cls}" if cls.startswith("value") or cls.startswith("zero") else cls
     c = {k: case[k] for k in ("kind", "event", "outcomes", "conditions", "domains", "malformed") if k in case}
